@@ -184,8 +184,10 @@ class EngineCore:
         if not self.prune:
             return True
         s = z3.Solver()
+        # the resource limit decides (deterministic); the wall-clock limit is only a safety net, generous enough not to flip
+        # a verdict (and with it the explored path set) on a loaded machine
         s.set("rlimit", 400000)
-        s.set("timeout", 1500)
+        s.set("timeout", 20000)
         s.add(*st.pc)
         if extra is not None:
             s.add(extra)
@@ -205,7 +207,7 @@ class EngineCore:
                 return False
             s = z3.Solver()
             s.set("rlimit", 200000)
-            s.set("timeout", 800)
+            s.set("timeout", 10000)
             s.add(*st.pc)
             s.add(z3.Not(c))
             return s.check() == z3.unsat
@@ -271,6 +273,8 @@ class EngineCore:
             return pc
         if name in ("__debug__",):
             return True
+        if name == "__name__":
+            return ctx.func.module.relpath if hasattr(ctx.func.module, "relpath") else "module"
         if name in SPEC_NAMES:
             return Builtin("spec." + name)
         raise EngineError(f"{ctx.func.key()}: unresolved name {name!r}")
@@ -411,6 +415,7 @@ class EngineCore:
     def make_exc_any(self, st: State, classes: list) -> Ref:
         classes = list(classes)
         exc = self.make_exc(st, classes[0], ())
+        st.heap[exc.oid]["$arbitrary"] = True  # stands for any instance: attributes such as errno are unknown, not None
         if len(classes) > 1:
             st.heap[exc.oid]["$clsset"] = tuple(classes)
             # the (unknown) class is also an SMT value, so that specifications can talk about it: typeof(e, 'X') over a
@@ -424,9 +429,9 @@ class EngineCore:
         """One candidate class per region of the exception lattice that handlers can tell apart: the built-in list, plus
         the classes the contract under verification names in env["exc_universe"] (repository classes, exception groups)."""
         out = [PyClass(k) for k in EXC_REPRESENTATIVES]
-        top = getattr(self, "top_ctx", None)
-        if top is not None and top.contract is not None:
-            for n in top.contract.env.get("exc_universe", []):
+        cur = getattr(self, "cur_contract", None)
+        if cur is not None:
+            for n in cur.env.get("exc_universe", []):
                 c = self.class_by_name(n)
                 if c not in out:
                     out.append(c)
@@ -443,6 +448,8 @@ class EngineCore:
 
     def typeof_term(self, st: State, v: Any, cls: Any):
         """`isinstance(v, cls)` as an SMT Bool, precise also for a lazily-split exception object."""
+        if isinstance(v, Opt):
+            return z3.And(z3.Not(v.isnone), self.typeof_term(st, v.val, cls))
         if isinstance(v, Ref) and v.oid in st.heap and st.heap[v.oid].get("$clsset"):
             cs = st.heap[v.oid]["$clsset"]
             yes = [c for c in cs if self.is_subclass(c, cls)]
